@@ -11,7 +11,7 @@ from common import ModelError, R, Rmat, flmat, max_rel_err
 
 from common import wiring_pre_build as pre_build  # noqa: E402,F401
 
-LEAN_MODULES = ["PyomaVerif.Props.C03", "PyomaVerif.Props.C01", "PyomaVerif.Props.WiringRun", "PyomaVerif.Props.C03C11", "PyomaVerif.Props.C03E2E", "PyomaVerif.Props.C03Stored", "PyomaVerif.Props.WiringClass", "PyomaVerif.Props.WiringCalls", "PyomaVerif.Props.C03Split", "PyomaVerif.Mutants.MsGather", "PyomaVerif.Props.C03Excite", "PyomaVerif.Props.C01Excite"]
+LEAN_MODULES = ["PyomaVerif.Props.C03", "PyomaVerif.Props.C01", "PyomaVerif.Props.WiringRun", "PyomaVerif.Props.C03C11", "PyomaVerif.Props.C03E2E", "PyomaVerif.Props.C03Stored", "PyomaVerif.Props.WiringClass", "PyomaVerif.Props.WiringCalls", "PyomaVerif.Props.C03Split", "PyomaVerif.Mutants.MsGather", "PyomaVerif.Props.C03Excite", "PyomaVerif.Props.C01Excite", "PyomaVerif.Props.C03Table", "PyomaVerif.Props.C03Whole", "PyomaVerif.Props.WiringMs"]
 THEOREMS = [
     # the split composed with the identification: user's datasets + ref_ind -> pre_multisetup -> what SSI_multi_setup hands to
     # build_hank -> C03_e2e_* (Props/C03Split.lean, Lemmas/MsGather.lean, Model/MsGather.lean); "after every preprocessing step"
@@ -92,6 +92,24 @@ THEOREMS = [
     # depth round (audit C03 gap 3): the multi-setup conclusion composed with the hard criteria -> the STORED tables
     "PV.C03Stored.C03_stored",
     "PV.C03Stored.Ex.stored",
+    # depth round 2 (delta audit gap 4): ssi.SSI_multi_setup as ONE executed function (Model/MultiSetup.lean, op
+    # ssi_multi_setup, stream ssi.SSI_multi_setup[whole]) and the class literals
+    "PV.C03Whole.msObs_ok_iff",
+    "PV.C03Whole.msSetupLoop_ok_iff",
+    "PV.C03Whole.ssiMultiSetup_eq",
+    "PV.C03Whole.ssiMultiSetup_returns",
+    "PV.C03Whole.ssiMultiSetup_empty",
+    "PV.C03Whole.ssiMultiSetup_step_zero",
+    "PV.C03Whole.ssiMultiSetup_clip",
+    "PV.C03Whole.C03_e2e_whole",
+    "PV.C03Whole.Ex.returns",
+    "PV.C03Whole.Ex.whole",
+    "PV.WiringMs.C03_run_multi_literals",
+    "PV.WiringMs.C03_run_multi_sites",
+    # the multi-setup conclusion on the tables SSI_poles returns (Props/C03Table.lean)
+    "PV.C03Table.C03_e2e_table",
+    "PV.C03Table.C03_columnFilled",
+    "PV.C03Table.Ex.table",
 ]
 RULE = (
     "correspondence: record level (op ms_gather on symbolic datasets, every entry compared): gen.pre_multisetup with several "
@@ -99,7 +117,11 @@ RULE = (
     "arrays build_hank / svd receive in every pass of SSI_multi_setup (classes and function, dict keys in either order); "
     "gen.pre_multisetup (all ordered reference subsets incl. duplicates/out-of-range: accepted/rejected and the "
     "split, exact) and ssi.SSI_multi_setup with the per-setup svd/pinv and the final qr/inv recorded in the harness (row "
-    "selection, re-basing, interleaving, A[n], C[n] vs the Lean model); oracle: global systems (1..5 modes), 2..4 setups, "
+    "selection, re-basing, interleaving, A[n], C[n] vs the Lean model); ssi.SSI_multi_setup[whole]: the function as ONE model "
+    "call (op ssi_multi_setup) on noise records and noise-free systems, 1..4 setups, 1..4 roving sensors, step 1..3, ordmax "
+    "below / at / above 2m, cov_mm / cov_R / dat: head, build_hank arguments (exact), pinv / qr / inv ARGUMENTS, Obs_all, the "
+    "lists A, C (lengths, shapes, values) and the exception class of empty Y, unequal sample counts, ordmax above the singular "
+    "values, step 0, orders above the rows of O_p; oracle: global systems (1..5 modes), 2..4 setups, "
     "1..3 references and 1..4 roving sensors at any positions, per-setup gains over four decades, cov_mm and dat, through "
     "MultiSetup_PreGER + SSIcov_MS/SSIdat_MS; the split exhaustively for <= 4 (quick) / <= 6 (thorough) channels. "
     "distinct = (modes, setups, refs, roving counts, method)"
@@ -223,6 +245,213 @@ def correspondence(ctx):
         ctx.corr("ssi.SSI_multi_setup[A,C]", bool(ok), {"br": br, "nref": nref, "nmov": nmov, "ordmax": ordmax}, None, None, ("msAC", ndof, ordmax))
         if k == 0:
             ctx.sample({"setups": len(datasets), "ref_ind": ref_ind, "nmov": nmov, "br": br, "ordmax": ordmax, "method": method, "gains": gains})
+    _whole_stream(ctx)
+
+
+# ---- ssi.SSI_multi_setup as ONE function (Model/MultiSetup.lean `ssiMultiSetup`, op `ssi_multi_setup`)
+_WL = 100000
+
+
+def _whole_realise(mat, Y):
+    """the array a label matrix of op ssi_multi_setup stands for (label = ((2*kk + part)*1000 + row)*100000 + col)"""
+    if len(mat) == 0:
+        return np.zeros((0, 0))
+    Lb = np.array(mat, dtype=np.int64).reshape(len(mat), -1)
+    col, q = Lb % _WL, Lb // _WL
+    row, q = q % 1000, q // 1000
+    out = np.empty(Lb.shape)
+    for i in range(Lb.shape[0]):
+        for j in range(Lb.shape[1]):
+            out[i, j] = Y[int(q[i, j]) // 2]["ref" if q[i, j] % 2 == 0 else "mov"][row[i, j], col[i, j]]
+    return out
+
+
+def _whole_arr(m, shape=None):
+    a = np.array(flmat(m), dtype=float)
+    if shape is not None:
+        a = a.reshape(shape)
+    elif a.ndim == 1:
+        a = a.reshape(len(m), 0)
+    return a
+
+
+def _whole_run(ctx, Y, br, ordmax, step, method):
+    """run the real function with every LAPACK call recorded, then the model on what was recorded"""
+    from pyoma2.functions import ssi
+
+    hanks, svds, sqrts, pinvs, qrs, invs = [], [], [], [], [], []
+    try:
+        with record(ssi, "build_hank", hanks), record(np.linalg, "svd", svds), record(np, "sqrt", sqrts), \
+                record(np.linalg, "pinv", pinvs), record(np.linalg, "qr", qrs), record(np.linalg, "inv", invs):
+            impl = ("ok", ssi.SSI_multi_setup(Y, 100.0, br, ordmax, method_hank=method, step=step))
+    except (ValueError, IndexError, np.linalg.LinAlgError) as e:
+        impl = ("raise", type(e).__name__)
+    sq = []
+    msq = [o for (a, o) in sqrts if np.ndim(o) == 2 and o.shape[0] == o.shape[1]]
+    for kk, (a, o) in enumerate(svds):
+        if kk < len(msq) and msq[kk].shape[0] == len(o[1]):
+            sq.append(np.diag(msq[kk]))
+        else:
+            sq.append(np.sqrt(o[1]))
+            ctx.count("whole_sqrt_not_recorded")
+    empty = []
+    rec = dict(U=[Rmat(o[0]) for (a, o) in svds], sq=[[R(v) for v in x] for x in sq],
+               P=[Rmat(o) for (a, o) in pinvs],
+               Q=Rmat(qrs[-1][1][0]) if qrs else empty, R=Rmat(qrs[-1][1][1]) if qrs else empty,
+               Rshape=list(np.shape(qrs[-1][1][1])) if qrs else [0, 0],
+               Rinv=[Rmat(o) if np.size(o) else empty for (a, o) in invs])
+    shapes = [{"ref": list(np.shape(y["ref"])), "mov": list(np.shape(y["mov"]))} for y in Y]
+    m = ctx.model("ssi_multi_setup", Y=shapes, br=br, ordmax=ordmax, step=step, **rec)
+    return impl, m, dict(hanks=hanks, svds=svds, pinvs=pinvs, qrs=qrs, invs=invs)
+
+
+def _whole_noise_case(ctx):
+    rng, g = ctx.rng, ctx.nprng()
+    nset = rng.randint(1, ctx.n(3, 4))
+    nref = rng.randint(1, ctx.n(2, 3))
+    nmov = [rng.randint(1, 4) for _ in range(nset)]
+    br = rng.randint(1, 3)
+    N = rng.randint(60, 140)
+    Y = []
+    for nm in nmov:
+        gain = 10 ** rng.uniform(-1, 1)
+        d = {"ref": g.standard_normal((nref, N)) * gain, "mov": g.standard_normal((nm, N)) * gain}
+        if rng.random() < 0.5:
+            d = {"mov": d["mov"], "ref": d["ref"]}
+        Y.append(d)
+    ordmax = rng.randint(1, nref * (br + 1))
+    return Y, nref, nmov, br, ordmax, rng.choice(["cov_mm", "cov_R", "dat"]), "noise"
+
+
+def _whole_system_case(ctx):
+    from pyoma2.functions import gen
+
+    case = _ms_case(ctx, small=True)
+    if case is None:
+        return None
+    S, layout, datasets, ref_ind, br, ordmax, method, gains = case
+    Y = gen.pre_multisetup(datasets, ref_ind)
+    nref = len(ref_ind[0])
+    nmov = [d.shape[1] - nref for d in datasets]
+    # fewer, as many and more orders than the 2m the noise-free records support
+    n = ordmax
+    ordmax = ctx.rng.choice([max(1, n - 1), n, n, min(n + ctx.rng.randint(1, 2), nref * (br + 1))])
+    return Y, nref, nmov, br, ordmax, method, "system_ordmax_" + ("lt" if ordmax < n else "eq" if ordmax == n else "gt") + "_2m"
+
+
+def _whole_stream(ctx):
+    rng = ctx.rng
+    for k in range(ctx.n(30, 400)):
+        case = _whole_system_case(ctx) if k % 3 == 2 else _whole_noise_case(ctx)
+        if case is None:
+            ctx.skipped += 1
+            continue
+        Y, nref, nmov, br, ordmax, method, kind = case
+        step = rng.choice([1, 1, 2, 3])
+        impl, m, rec = _whole_run(ctx, Y, br, ordmax, step, method)
+        inp = {"kind": kind, "nref": nref, "nmov": nmov, "br": br, "ordmax": ordmax, "step": step, "method": method}
+        key = ("whole", kind, len(Y), nref, tuple(nmov), br, ordmax, step, method)
+        if "raises" in m and m["raises"].startswith("unmodelled"):
+            ctx.skipped += 1
+            ctx.count("whole_unmodelled")
+            continue
+        if impl[0] == "raise" and impl[1] == "LinAlgError" and "raises" not in m:
+            # a numerically singular R[:i, :i] (noise-free records, orders above 2m): the inverse is outside the model
+            ctx.skipped += 1
+            ctx.count("whole_singular_R")
+            continue
+        if impl[0] == "raise" or "raises" in m:
+            # e.g. an order above the rows of O_p (inv of a clipped, non-square block): same exception class on both sides
+            ok = impl[0] == "raise" and m.get("raises") == impl[1]
+            ctx.corr("ssi.SSI_multi_setup[whole]", ok, inp, m.get("raises", "returns"), impl[1] if impl[0] == "raise" else "returns", key)
+            ctx.count("whole_raise_" + str(impl[1] if impl[0] == "raise" else "model_only"))
+            continue
+        Obs_all, A, C = impl[1]
+        ndof = nref + sum(nmov)
+        why = []
+        h = m["head"]
+        if (h["n_setup"], h["n_ref"], h["n_mov"], h["n_DOF"]) != (len(Y), nref, nmov, ndof):
+            why.append("head")
+        # build_hank arguments: entry by entry the rows of the caller's records
+        if len(rec["hanks"]) != len(Y) or len(m["hank"]) != len(Y):
+            why.append("hank-count")
+        else:
+            for kk, (a, _o) in enumerate(rec["hanks"]):
+                kw = {}
+                if not (msgather.same(a[0], _whole_realise(m["hank"][kk]["Y_all"], Y))
+                        and msgather.same(a[1], _whole_realise(m["hank"][kk]["Y_ref"], Y)) and a[2] == br):
+                    why.append(f"hank-args[{kk}]")
+        # pinv arguments (one rounding per entry: U[i, j] * sqrt(S)[j])
+        if len(rec["pinvs"]) != len(Y):
+            why.append("pinv-count")
+        else:
+            for kk, (a, _o) in enumerate(rec["pinvs"]):
+                want = _whole_arr(m["pinvargs"][kk])
+                if want.shape != np.shape(a[0]) or max_rel_err(want, a[0]) > 1e-15:
+                    why.append(f"pinv-arg[{kk}]")
+        # Obs_all, qr argument
+        pm = max(np.abs(o).max() for (_a, o) in rec["pinvs"])
+        om = max(np.abs(a[0]).max() for (a, _o) in rec["pinvs"])
+        amax = max(np.abs(Obs_all).max(), 1e-300)
+        tol = 1e-12 + 1e-13 * ordmax * pm * om * om * br * max(nref, 1) / amax
+        mo = _whole_arr(m["Obs_all"], tuple(m["obs_shape"]))
+        if mo.shape != Obs_all.shape or max_rel_err(mo, Obs_all) > tol:
+            why.append("Obs_all")
+        qa = np.asarray(rec["qrs"][-1][0][0])
+        mq = _whole_arr(m["qrarg"], (mo.shape[0] - ndof, ordmax))
+        if len(rec["qrs"]) != 1 + (len(Y) if method == "dat" else 0) or mq.shape != qa.shape or np.abs(mq - qa).max(initial=0.0) > tol * amax:
+            why.append("qr-arg")
+        # inv arguments: leading blocks of the recorded R, exactly, one per visited order
+        orders = list(range(0, ordmax + 1, step))
+        if len(rec["invs"]) != len(orders) or len(m["invargs"]) != len(orders):
+            why.append("inv-count")
+        else:
+            for n, (a, _o), mi in zip(orders, rec["invs"], m["invargs"]):
+                if not np.array_equal(_whole_arr(mi, (n, n)), np.asarray(a[0])):
+                    why.append(f"inv-arg[{n}]")
+        # the lists
+        if len(A) != len(orders) or len(C) != len(orders) or len(m["A"]) != len(orders) or len(m["C"]) != len(orders):
+            why.append("list-lengths")
+        else:
+            for pos, n in enumerate(orders):
+                Ri = np.asarray(rec["invs"][pos][1])
+                tA = 1e-12 + 1e-13 * max(n, 1) * (np.abs(Ri).max() if Ri.size else 0.0) * amax * Obs_all.shape[0] * (1 + tol) / max(np.abs(A[pos]).max() if A[pos].size else 1.0, 1e-300)
+                if np.shape(A[pos]) != (n, n) or max_rel_err(_whole_arr(m["A"][pos], (n, n)), A[pos]) > tA:
+                    why.append(f"A[{pos}]")
+                if tuple(m["Cshapes"][pos]) != np.shape(C[pos]) or np.shape(C[pos]) != (ndof, n) or \
+                        np.abs(_whole_arr(m["C"][pos], (ndof, n)) - C[pos]).max(initial=0.0) > tol * amax:
+                    why.append(f"C[{pos}]")
+        ctx.corr("ssi.SSI_multi_setup[whole]", not why, inp, why, "returns", key)
+        ctx.count("whole_" + kind)
+        ctx.count(f"whole_step{step}")
+        ctx.count(f"whole_nmov{max(nmov)}")
+    # exception branches, first in program order
+    g = ctx.nprng()
+    for k in range(ctx.n(8, 40)):
+        kind = ["empty", "samples", "clip", "step0", "rows"][k % 5]
+        nref, br, N = rng.randint(1, 2), rng.randint(1, 3), rng.randint(40, 80)
+        nmov = [rng.randint(1, 3) for _ in range(rng.randint(1, 3))]
+        Y = [{"ref": g.standard_normal((nref, N)), "mov": g.standard_normal((nm, N))} for nm in nmov]
+        ordmax, step = rng.randint(1, nref * (br + 1)), rng.choice([1, 2])
+        if kind == "empty":
+            Y = []
+        elif kind == "samples":
+            j = rng.randrange(len(Y))
+            Y[j]["mov"] = Y[j]["mov"][:, :-1]
+        elif kind == "clip":
+            ordmax = nref * (br + 1) + rng.randint(1, 3)
+        elif kind == "step0":
+            step = 0
+        elif kind == "rows":
+            # more orders than O_p has rows: inv of a clipped block
+            nref, br, nmov = 2, 2, [1]
+            Y = [{"ref": g.standard_normal((nref, N)), "mov": g.standard_normal((1, N))}]
+            ordmax, step = 4, 1
+        impl, m, _rec = _whole_run(ctx, Y, br, ordmax, step, "cov_mm")
+        ok = impl[0] == "raise" and m.get("raises") == impl[1]
+        ctx.corr("ssi.SSI_multi_setup[whole exceptions]", ok, {"kind": kind, "nref": nref, "nmov": nmov, "br": br, "ordmax": ordmax, "step": step},
+                 m.get("raises", "returns"), impl[1] if impl[0] == "raise" else "returns", ("wholeexc", kind))
+        ctx.count("whole_exc_" + kind)
 
 
 def _records_streams(ctx):
